@@ -11,7 +11,7 @@ from __future__ import annotations
 import ast
 
 from .. import flow
-from ..astutil import body_walk, call_name, call_recv, calls_in, kwarg, norm, strip_await, walk_no_nested
+from ..astutil import body_walk, call_name, call_recv, calls_in, kwarg, names_in, norm, strip_await, walk_no_nested
 from ..loader import AnalysisError
 from .common import in_lock, parmap, where
 
@@ -448,7 +448,66 @@ def r4_6(ctx):
             ctx.ok("R4.6", where(fi), "queued notifications are flushed (or the command refused) on every path before the operation is admitted")
 
 
+def r4_7(ctx):
+    r"""Case spellings: RFC 3501 flag names are case-insensitive, the server compares them case-sensitively everywhere
+    (flag_to_seq, the \Recent guard, SYSTEM_FLAG_MAP).  So the one producer of client flags, _p_flag, must fold every
+    case variant of a system flag to the canonical spelling before anything else sees it."""
+    p = ctx.p
+    fi = p.func("parse.IMAPClientCommand._p_flag")
+    ctx.analysed(fi)
+    fold = ("lower", "casefold", "upper")
+    rets = [n for n in body_walk(fi.node) if isinstance(n, ast.Return) and n.value is not None]
+    ctx.floor("R4.7", len(rets), 1, "returns of _p_flag")
+    canon = None
+    # idiom 1:  for v in SYSTEM_FLAGS: if flag.lower() == v.lower(): return v
+    for loop in body_walk(fi.node):
+        if isinstance(loop, ast.For) and isinstance(loop.target, ast.Name) and names_in(loop.iter) & {"SYSTEM_FLAGS", "SystemFlags", "REV_SYSTEM_FLAG_MAP"}:
+            v = loop.target.id
+            for iff in walk_no_nested(loop):
+                if isinstance(iff, ast.If) and isinstance(iff.test, ast.Compare) and len(iff.test.ops) == 1 and isinstance(iff.test.ops[0], ast.Eq):
+                    sides = [iff.test.left, iff.test.comparators[0]]
+                    if all(isinstance(x, ast.Call) and call_name(x) in fold and not x.args for x in sides) and call_name(sides[0]) == call_name(sides[1]):
+                        recv = {norm(call_recv(x)) for x in sides}
+                        if v in recv and len(recv) == 2 and any(isinstance(r_, ast.Return) and norm(r_.value) in (v, f"str({v})", f"{v}.value") for r_ in iff.body):
+                            canon = (loop, f"for {v} in {norm(loop.iter)}: case-folded comparison returns the canonical spelling")
+    # idiom 2:  return TABLE.get(flag.lower(), flag)
+    for r_ in rets:
+        c = r_.value
+        if isinstance(c, ast.Call) and call_name(c) == "get" and len(c.args) == 2 and isinstance(c.args[0], ast.Call) and call_name(c.args[0]) in fold and norm(call_recv(c.args[0])) == norm(c.args[1]):
+            canon = (r_, f"{norm(c)}: table lookup by case-folded name")
+    if canon is None:
+        ctx.bad(
+            "R4.7", fi.module, fi.qual, "no case folding of system flags",
+            "flags are compared case-sensitively everywhere downstream, and _p_flag hands on the client's spelling: "
+            "`STORE 1 +FLAGS (\\seen)` creates a second flag `\\seen` beside \\Seen (FETCH FLAGS and SEARCH SEEN disagree) and "
+            "`STORE 1 +FLAGS (\\RECENT)` passes the \\Recent guard",
+            fi.node.lineno,
+        )
+        return
+    node, how = canon
+    # every raw return of the flag comes after the canonicalisation in the same statement list (or is the canonical one)
+    par = parmap(fi)
+    body = fi.node.body
+    top = node
+    while par.get(top) is not fi.node and top in par:
+        top = par[top]
+    bad = []
+    for r_ in rets:
+        t = r_
+        while par.get(t) is not fi.node and t in par:
+            t = par[t]
+        if t is top or r_ is node:
+            continue
+        if body.index(t) < body.index(top):
+            bad.append(r_)
+    if bad:
+        ctx.bad("R4.7", fi.module, fi.qual, norm(bad[0]), "a flag is returned before system flags were folded to their canonical spelling", bad[0].lineno)
+    else:
+        ctx.ok("R4.7", where(fi), how)
+
+
 def run(ctx):
+    r4_7(ctx)
     r4_6(ctx)
     fmap, nons = r4_1(ctx)
     r4_2(ctx, fmap, nons)
